@@ -36,6 +36,18 @@ check("C05", "exploration",
       SIM + "2-party protocol simulation with seeded peer policy, device-side reassembly oracle",
       "DESIGN.md 4/C05", "manager-world")
 
+check("C11", "fault_enumeration",
+      "Link fault {write error, read error before/after the device acted, time-out before/after} at every "
+      "exchange index of every command variant (enumerated per policy seed), then 1..3 follow-ups under a "
+      "scripted reconnection {works, device absent j times, open fails j times}. Oracles: faulted request "
+      "answered with the device-error code and no shutdown; after a link failure the transport log shows "
+      "close, enumerate/open and the four bring-up APDUs before any command APDU; failed reconnections "
+      "answer the device-error code, send nothing, and are retried; once healthy the next request succeeds.",
+      "Ledger (HID) transport only, as anchored; no write/read error at the EXIT exchanges of uiHeartbeat; no "
+      "second fault during the reconnection's own bring-up; request contents fixed per variant in quick tier.",
+      SIM + "link-fault enumeration at every exchange index with scripted reconnection, transport-log ordering oracle",
+      "DESIGN.md 4/C11", "manager-world")
+
 check("C13", "exploration",
       "Seeded device states queried through the real stack (getPubKey x6, blockchainState, "
       "blockchainParameters, signerHeartbeat) and one uiHeartbeat mode walk whose USB re-enumeration "
